@@ -108,8 +108,34 @@ pub proof fn lemma_next_nt_frame(t: Seq<LuaTokenData>, u: Seq<LuaTokenData>, i: 
 /// GLOBAL INVARIANT of the grammar (requires + ensures of every grammar fn): no token at or after the cursor has one of the two
 /// soft-keyword kinds that `parse_stat` dispatches on without a guarantee of progress (`TkContinue`, `TkConst`). The lexer never
 /// emits them; the grammar writes them with `set_current_token_kind` immediately before the `bump` that consumes the token.
-pub open spec fn nosoft(p: &LuaParser) -> bool {
-    forall|j: int| p.token_index <= j < p.tokens@.len() ==> !((#[trigger] p.tokens@[j]).kind is TkContinue) && !(p.tokens@[j].kind is TkConst)
+pub open spec fn nosoft(p: &LuaParser) -> bool { nosoft_at(p.tokens@, p.token_index as int) }
+
+/// (the quantifier is triggered by the dedicated predicate `tok_soft` only, so it is not instantiated for every `tokens@[j]` term of a
+/// long function body; `LuaParser::set_current_token_kind` ensures `tok_soft` is unchanged at every other position — BASE_PATCH —,
+/// `bump` keeps `tokens@`, so preservation of `nosoft` needs no proof hints)
+pub open spec fn nosoft_at(t: Seq<LuaTokenData>, i: int) -> bool {
+    forall|j: int| i <= j < t.len() ==> !#[trigger] tok_soft(t, j)
+}
+
+pub open spec fn tok_soft(t: Seq<LuaTokenData>, j: int) -> bool { t[j].kind is TkContinue || t[j].kind is TkConst }
+
+pub proof fn lemma_nosoft_mono(t: Seq<LuaTokenData>, i: int, j: int)
+    requires
+        nosoft_at(t, i),
+        i <= j,
+    ensures
+        nosoft_at(t, j),
+{
+}
+
+/// under the parser invariant the current token itself is not one of the two kinds
+pub proof fn lemma_nosoft_cur(p: &LuaParser)
+    requires ginv(p), nosoft(p),
+    ensures !(p.current_token is TkContinue), !(p.current_token is TkConst),
+{
+    if p.token_index < p.tokens@.len() {
+        assert(!tok_soft(p.tokens@, p.token_index as int));
+    }
 }
 
 /// no progress => the kind of the current token is unchanged (every `set_current_token_kind` is followed by a `bump`)
@@ -160,5 +186,13 @@ pub proof fn lemma_first_step(a: &LuaParser, b: &LuaParser)
 pub proof fn lemma_cm_live_step(cm: &CompleteMarker, a: &LuaParser, b: &LuaParser)
     requires cm_live(cm, a), gstep(a, b),
     ensures cm_live(cm, b),
+{
+}
+
+/// for function bodies that `hide(tokens_ok)` (its quantifier over all tokens is expensive in long bodies): the two arithmetic facts
+/// of the parser invariant that grammar code needs
+pub proof fn lemma_tok_bound(p: &LuaParser)
+    requires ginv(p),
+    ensures p.tokens@.len() < 0x7fff_ffff, p.token_index <= p.tokens@.len(),
 {
 }
